@@ -1089,8 +1089,8 @@ func init() {
 			"arrays_parallel_reserve", "arrays_parallel_write", "arrays_multi_buffer_write", "arrays_pointer_width_ge_2", "arrays_pointer_width_ge_3",
 			"strings_hashed_empty", "strings_read", "strings_equal_near_miss", "strings_frequency_ordered",
 			"map_id_bit63", "map_id_bit63_bucketbits_lt_tagbits", "map_lookup_many_entries_per_id", "map_lookup_absent",
-			"map_find_with_tag", "map_iterations", "map_eachitem_parallel", "map_parallel_build",
-		, "map_wide_tags"},
+			"map_find_with_tag", "map_iterations", "map_eachitem_parallel", "map_parallel_build", "map_wide_tags",
+		},
 		Run: func(c *core.Ctx) {
 			switch c.Index % 5 {
 			case 0:
